@@ -101,6 +101,11 @@ def snapshot(net, tree, orders=None, arrays=None, exec_order=None, combo_factor=
     # all leaf legs were touched above, so the lazy preprocessing map is filled
     snap["pre"] = frozenset(int(i) + 1 for i in tree.preprocessing)
     snap["combo"] = {"factor": combo_factor, "value": int(tree.combo_cost(factor=combo_factor))}
+    inv_ = net._inv()
+    snap["view"] = {"inputs": [[inv_[ix] for ix in term] for term in tree.get_inputs_sliced()],
+                    "output": [inv_[ix] for ix in tree.get_output_sliced()],
+                    "shapes": [[int(d) for d in shp] for shp in tree.get_shapes_sliced()],
+                    "nslices": int(tree.nslices)}
     peaks = []
     if orders and not light:
         for name, o in orders.items():
